@@ -41,7 +41,7 @@ STATEFUL = {"background", "standardize_shared_mapper", "standardize_mapper", "co
             "kdtree_series_ncpu2_hamming", "kdtree", "kdtree_ncpu2", "kdtree_hamming_ncpu3", "kdtree_custom", "clustermap_default", "clustermap_cbar_kws", "clustermap_norm",
             "clustermap_single_chain_meta", "hierarchical_default", "tcrdist_default_kwargs", "tcrdist_both", "colors_hls_seeded",
             "seqlogos", "subsample_seeded", "pcDelta_maxseqs_seeded", "downsample_seeded",
-            "tcr_metric_cdr_unknown_v_raises", "tcr_metric_alpha_cdr_unknown_v_raises", "tcr_metric_cdr", "clustermap_short_mapper_list"}
+            "mle_exact_fit_fails_raises", "undefined_estimates_are_nan", "tcr_metric_cdr_unknown_v_raises", "tcr_metric_alpha_cdr_unknown_v_raises", "tcr_metric_cdr", "clustermap_short_mapper_list"}
 
 
 def _fresh(history):
